@@ -46,6 +46,13 @@ def run(tier, seed):
             segs = [[req[:c], req[c:]] for c in cuts]
             segs += [[req[:crlf + 1], req[crlf + 1:crlf + 2], req[crlf + 2:]], [req[:crlf], req[crlf:crlf + 1], req[crlf + 1:]]]
             groups.append((cfg, req, tail_for(cfg), segs))
+    # a refused over-long line followed by a well-formed request, the boundary between two slices of ONE outer read falling right
+    # behind the refused part (two TLS records in one TCP read on the PyOpenSSL backend): the refusal is final, whatever follows
+    forced = []
+    for cfg in cfgs():
+        for first in (b"gemini://h/" + b"a" * 1020 + b"\r\n", b"x" * 1030 + b"\r\n", b"y" * 1500, b"gemini://h/" + b"b" * 1014):
+            for second in (b"gemini://h/admin\r\n", b"titan://h/f;size=2;mime=text/plain\r\nhi", b"\r\ngemini://h/admin\r\n"):
+                forced.append((cfg, first + second, tail_for(cfg), [first, second]))
     nrand = 300 if tier == "quick" else 5000
     for _ in range(nrand):
         cfg = sg.gen_cfg(rng); cfg["hres"] = ("async",)
@@ -59,6 +66,10 @@ def run(tier, seed):
         for ch in chunkings:
             evs = sg.group_reads(rng, ch) if rng.random() < 0.3 else [("read", [c]) for c in ch]
             cases.append((cfg, evs + tail)); index.append((gi, ch))
+    for cfg, req, tail, ch in forced:
+        gi = len(groups); groups.append((cfg, req, tail, [ch]))
+        cases.append((cfg, [("read", [req])] + tail)); index.append((gi, None))
+        cases.append((cfg, [("read", list(ch))] + tail)); index.append((gi, ch))
     impl = sd.run_cases(cases)
     base = {}
     for (gi, ch), (o, d, tb, *_) in zip(index, impl):
